@@ -771,7 +771,8 @@ SyntaxVisitor::Action TypeChecker::visitBraceEnclosedInitializer(
 SyntaxVisitor::Action TypeChecker::visitIdentifierName(const IdentifierNameSyntax* node)
 {
     auto scope = semaModel_->scopeOf(node);
-    PSY_ASSERT_2(scope, return Action::Quit);
+    if (!scope)
+        return typeCheckError(node);
     auto decl = scope->searchForDeclaration(
                 identifierFrom(node),
                 NameSpace::OrdinaryIdentifiers);
